@@ -3,6 +3,7 @@ package harness
 import (
 	"encoding/binary"
 	"fmt"
+	oldrand "math/rand"
 	"math/rand/v2"
 	"sort"
 	"testing"
@@ -100,6 +101,8 @@ func ExecRun(t *testing.T, spec RunSpec, known *KnownFindings) *RunResult {
 	res := &RunResult{Spec: spec}
 	res.Spec.Scenario = sc
 	uuid.SetRand(seededReader{rand.New(rand.NewPCG(spec.Seed, 0x75756964))})
+	// compliance.AddIPv4EntryRandom shuffles with the global math/rand source (needs GODEBUG=randseednop=0)
+	oldrand.Seed(int64(spec.Seed))
 	var e *env
 	var out *simrt.Outcome
 	var sim *simrt.Sim
